@@ -236,16 +236,23 @@ class PlanJoinTablesQuery:
         # get conditions for tables
         binary_ops = []
 
-        def _check_node_condition(node, **kwargs):
-            if isinstance(node, BetweenOperation):
-                self.check_node_condition(node)
-
+        def _collect_ops(node, **kwargs):
             if isinstance(node, BinaryOperation):
                 binary_ops.append(node.op)
 
+        query_traversal(query.where, _collect_ops)
+
+        def _check_conjuncts(node):
+            # only a top-level conjunct of WHERE can be moved to a table / a model:
+            # below NOT, OR, a function or an arithmetic operation it has another meaning
+            if isinstance(node, BinaryOperation) and node.op == 'and':
+                for arg in node.args:
+                    _check_conjuncts(arg)
+            elif isinstance(node, (BinaryOperation, BetweenOperation)):
                 self.check_node_condition(node)
 
-        query_traversal(query.where, _check_node_condition)
+        if query.where is not None:
+            _check_conjuncts(query.where)
 
         self.query_context['binary_ops'] = binary_ops
 
